@@ -28,9 +28,23 @@ PROPS['C08'] = dict(
         ('RegionFacts', 'prefixed_region', 'Prefixed: the prefix value alone fixes the region.'),
         ('RegionFacts', 'prefixed_includelength_region', 'Prefixed(includelength): region = prefix value minus prefix size.'),
         ('RegionFacts', 'nullstripped_region', 'NullStripped: the region is the rest of the stream stripped of padding units; the outer stream ends at its end.'),
+        ('RegionFacts', 'offsettedend_region', 'OffsettedEnd on a seekable stream: the region (current position to `off` bytes from the end) is fixed before the inner construct runs; the inner construct sees exactly those bytes at their absolute offset and the outer stream ends right behind them.'),
+        ('RegionFacts', 'offsettedend_at', 'OffsettedEnd(-k) with `body` unread: the inner construct sees the first |body| - k bytes, the last k stay unread, whatever the inner construct consumed.'),
+        ('RegionFacts', 'nullterminated_region', 'NullTerminated: the scan alone fixes the region and where the outer stream stands afterwards.'),
+        ('RegionFacts', 'nullterminated_first_terminator', 'NullTerminated with a one-byte terminator: the region is everything in front of the FIRST terminator (plus it with include=True); afterwards the stream stands behind the terminator (consume=True) or at it (consume=False).'),
         ('RegionFacts', 'tell_absolute_at_any_depth', 'Tell inside ANY nest of delimiters (unbounded depth) reports the absolute offset of the outermost stream.'),
     ],
     examples='''
+Example C08_ex_nullterminated_greedy :
+  parse_at (CSequence [CNullTerminated CGreedyBytes [x00] false true true; CTell; CNullTerminated CGreedyBytes [x3b] true false true; CTell])
+           [] [x61; x62; x00; x63; x00; x3b; x64] 0
+  = Ok (VList [VBytes [x61; x62]; VInt 3; VBytes [x63; x00; x3b]; VInt 5], 5%Z).
+Proof. vm_compute; reflexivity. Qed.
+Example C08_ex_offsettedend :
+  parse_at (CSequence [CFormat Big FB; COffsettedEnd (XConst (VInt (-2))) (CSequence [CFormat Big FB; CTell]); CTell; CBytes (XConst (VInt 2))])
+           [] [x01; x02; x03; x04; x05; x06] 0
+  = Ok (VList [VInt 1; VList [VInt 2; VInt 2]; VInt 4; VBytes [x05; x06]], 6%Z).
+Proof. vm_compute; reflexivity. Qed.
 Example C08_ex_nested_tell :
   parse_at (CStruct [CRenamed [x68] (CBytes (XConst (VInt 2)));
                      CRenamed [x74] (CFixedSized (XConst (VInt 4)) (CPrefixed (CFormat Big FB) (CNullStripped CTell [x00]) false))])
